@@ -21,7 +21,7 @@ ID = 'C20'
 
 MANIFEST = dict(
     technique='explicit-state exploration of all transcribe-batch histories (cached / uncached) on live real TransformerOCR models with random weights; differential oracles: line decoded alone by a pristine copy, and the teacher-forced masked forward pass',
-    text='Bounded exhaustive: for each of 6 (quick) / 18 (thorough) random-weight models (depth 1-3, heads 1/2/4, width 16/32) every history of up to 2 (quick) / 3 (thorough) events over 12 events (6 batches x cached/uncached) is executed on ONE live model (caches survive between calls); for the last event of every history each line\'s per-step scores must equal those of the line decoded alone by a pristine copy and those of the teacher-forced forward pass over the emitted symbols (1e-4), transcripts must agree, decoding must stop within the length cap and transcriptions must be free of boundary / ignore symbols. Added sub-sweeps: histories of run_ocr calls (1088 px padding) on one engine against a fresh engine and single lines, batches in which 255 / 256 / 257 lines survive the first step, 640 px lines running to the 160-step cap on 2-3 layer decoders (recomputed == cached == teacher-forced), and the network from build_net on 1920 / 2112 px crops. Entry-point histories: every sequence of up to 2 (quick) / 3 (thorough) calls over run_ocr / transcribe_batch cached / uncached x 3 batches (incl. lines whose transcription is empty because they end at the first step) on one engine; the last call must equal the same call on a fresh engine and the uncached scores, and run_ocr\'s text must be exactly the decoded symbols.',
+    text='Bounded exhaustive: for each of 6 (quick) / 18 (thorough) random-weight models (depth 1-3, heads 1/2/4, width 16/32) every history of up to 2 (quick) / 3 (thorough) events over 12 events (6 batches x cached/uncached) is executed on ONE live model (caches survive between calls); for the last event of every history each line\'s per-step scores must equal those of the line decoded alone by a pristine copy and those of the teacher-forced forward pass over the emitted symbols (1e-4), transcripts must agree, decoding must stop within the length cap and transcriptions must be free of boundary / ignore symbols. Added sub-sweeps: histories of run_ocr calls (1088 px padding) on one engine against a fresh engine and single lines, batches in which 255 / 256 / 257 lines survive the first step, 640 px lines running to the 160-step cap on 2-3 layer decoders (recomputed == cached == teacher-forced), and the network from build_net on 1920 / 2112 px crops. Entry-point histories: every sequence of up to 2 (quick) / 3 (thorough) calls over run_ocr / transcribe_batch cached / uncached x 3 batches (incl. lines whose transcription is empty because they end at the first step) on one engine; the last call must equal the same call on a fresh engine and the uncached scores, and run_ocr\'s text must be exactly the decoded symbols. Wave 10: uninitialised cache memory is poisoned with NaN (and all comparisons are NaN-aware); the weights of another checkpoint loaded in place between two batches; binarised crops stored as 0 / 1 alone and next to ordinary crops.',
     note='Random weights (no trained model), CPU, small dimensions; the convolutional front-end is a stub; beam-search use of cache_index_select is not covered.',
     ref='3/C20')
 
